@@ -138,5 +138,6 @@ def plan(tier):
     if not q:
         h = InverseCircuit(n=3, mode="core")
         h.parallel = True
-        jobs.append((h, {"time_budget": 3600, "chunk_paths": 64}))
+        h.partial_ok = True  # ~181k paths; budget generous enough to complete on an idle machine
+        jobs.append((h, {"time_budget": 3 * 3600, "chunk_paths": 64}))
     return jobs
